@@ -590,7 +590,10 @@ class FileCache:
                     index = filepaths.index(cache_miss.filepath)
                     filepaths.pop(index)
 
-        size_of_requested_data = _get_total_size_of_files_in_bytes(filepaths)
+        # a uri that is requested more than once is stored (and counted) only once
+        size_of_requested_data = _get_total_size_of_files_in_bytes(
+            list(set(filepaths))
+        )
         if size_of_requested_data > self.config.max_size_bytes:
             warning = (
                 f"The requested data does not fit into the cache."
